@@ -1,2 +1,6 @@
 import RaftVerif.Proofs.ServerLocal
-/-! # C10 — crash recovery. -/
+import RaftVerif.Proofs.Restart
+/-! # C10 — crash recovery.
+
+`SV.exec_prefix` (a crash leaves a prefix of the handler's writes), `SV.restart_resumes`,
+`SV.restart_fsm`, `SV.restart_returns`, `SV.damaged_falls_back`. -/
